@@ -159,15 +159,6 @@ Proof.
   - cbn [flat_map]. rewrite !cnt_app. specialize (IH Hf). lia.
 Qed.
 
-Lemma insert_ops_nonempty : forall new cur r, insert_ops cur new = Some r -> cur <> [] -> r <> [].
-Proof.
-  induction new as [|x xs IH]; intros cur r H Hc; cbn [insert_ops] in H.
-  - inversion H; subst. exact Hc.
-  - destruct (existsb (fun o => oname o =? oname x) cur); [eapply IH; eauto|].
-    destruct (default_constructible (oname x)); [|discriminate]. eapply IH; [exact H|].
-    destruct cur; discriminate.
-Qed.
-
 (* ---------------------------------------------------------------- append_node, append *)
 Lemma one_below_S n i : one_below (S n) i = (one_below n i + (if Nat.eqb n i then 1 else 0))%nat.
 Proof.
@@ -197,16 +188,16 @@ Proof.
   intros [Hops Hids Hus] H. unfold append_node in H.
   destruct (find_node (pnodes G) (nid c)) as [a|] eqn:Ea.
   - destruct (uncollide_args G (pnsw G) (nargs c) (nargs a)) as [[args' n']|] eqn:Eu; [|discriminate].
-    destruct (insert_ops (nops a) (nops c)) as [ops'|] eqn:Ei; [|discriminate]. inversion H; subst G1. clear H.
+    inversion H; subst G1. clear H.
     destruct (find_node_some _ _ _ Ea) as [HaG Hida]. destruct (uncollide_cnt _ _ _ _ _ _ Eu) as [Hle Hc].
     constructor; cbn [pnodes pnsw pout].
     + intros n Hn. destruct (in_replace_node _ _ _ _ Hn) as [->|Hn']; [|apply Hops; exact Hn'].
-      cbn [nops]. eapply insert_ops_nonempty; eauto.
+      cbn [nops]. apply insert_ops_nonempty. apply Hops. exact HaG.
     + rewrite (replace_map nid _ _ _ a Ea) by reflexivity. exact Hids.
     + intros i. unfold users. cbn [pnodes pout].
       rewrite (replace_map nsw _ _ _ a Ea) by reflexivity.
-      pose proof (replace_cnt (pnodes G) (nid c) (mkNode (nid a) (nsw a) ops' args') a i Ea) as Hr.
-      assert (cnt (node_muxes (mkNode (nid a) (nsw a) ops' args')) i = cnt (node_muxes a) i + bump (pnsw G) n' i)%nat
+      pose proof (replace_cnt (pnodes G) (nid c) (mkNode (nid a) (nsw a) (insert_ops (nops a) (nops c)) args') a i Ea) as Hr.
+      assert (cnt (node_muxes (mkNode (nid a) (nsw a) (insert_ops (nops a) (nops c)) args')) i = cnt (node_muxes a) i + bump (pnsw G) n' i)%nat
         as Hn by (unfold node_muxes; cbn [nargs]; apply Hc).
       specialize (Hus i). unfold users in Hus. rewrite (one_below_bump _ _ i Hle). lia.
   - destruct (map_opt (equiv_owner G) (nargs c)) as [es|] eqn:Ee; [|discriminate].
